@@ -41,6 +41,8 @@ from pydiverse.transform._internal.pipe.pipeable import (
 from pydiverse.transform._internal.pipe.table import Table
 from pydiverse.transform._internal.tree import types
 from pydiverse.transform._internal.tree.col_expr import (
+    CaseExpr,
+    Cast,
     Col,
     ColExpr,
     ColFn,
@@ -1631,6 +1633,12 @@ def preprocess_arg(arg: ColExpr, table: Table, *, agg_is_window: bool = True) ->
                 eval_aligned=eval_aligned | isinstance(expr, EvalAligned),
             )
         )
+        # the type computed when the expression was built may rest on an older type of
+        # a column (see above): it is derived again from the resolved children
+        if isinstance(new, ColFn | CaseExpr):
+            new._dtype = None
+        elif isinstance(new, Cast):
+            new._dtype = copy.copy(new.target_type)
 
         # add casts for boolean add / sum
         # If we have more operations like these, which we want to map to other
